@@ -251,12 +251,12 @@ func (c *Ctx) perFileCallbacks(cmd *Command) []*ssa.Function {
 }
 
 // RuleIsoGlobal: nothing else survives from file to file.
-func (c *Ctx) RuleIsoGlobal() *Result {
-	res := &Result{Rule: "ISO-GLOBAL", MinInst: 3}
+func (c *Ctx) RuleIsoGlobal(commands ...string) *Result {
+	res := &Result{Rule: "ISO-GLOBAL", MinInst: len(commands)}
 	cm := c.Commands()
 	g := c.Graph()
 	doneGlobal := map[*ssa.Global]bool{}
-	for _, name := range []string{"update", "compare", "format"} {
+	for _, name := range commands {
 		cmd := cm.ByName[name]
 		if cmd == nil {
 			continue
@@ -288,6 +288,21 @@ func (c *Ctx) RuleIsoGlobal() *Result {
 					if ld, ok := x.Map.(*ssa.UnOp); ok {
 						addr = ld.X
 					}
+				case *ssa.Call:
+					// the address of a package variable handed to a function that writes through it
+					sf := staticFn(&x.Call)
+					if sf == nil || !c.P.IsRepoFn(sf) {
+						return
+					}
+					for i, a := range x.Call.Args {
+						if gl := rootGlobal(a); gl != nil && i < len(sf.Params) && writesThroughParam(sf, sf.Params[i]) {
+							if _, ok := byGlobal[gl]; !ok {
+								globals = append(globals, gl)
+							}
+							byGlobal[gl] = append(byGlobal[gl], in)
+						}
+					}
+					return
 				default:
 					return
 				}
@@ -546,7 +561,7 @@ func (c *Ctx) RuleIsoOwner() *Result {
 			case *ssa.Call:
 				// &p.field handed to a callee (mergo.Merge(&p.variables, ...))
 				for _, a := range x.Call.Args {
-					if f, ok := a.(*ssa.FieldAddr); ok && isNamed(f.X.Type(), parserPkg, "Parser") {
+					if f, ok := stripConv(a).(*ssa.FieldAddr); ok && isNamed(f.X.Type(), parserPkg, "Parser") {
 						fa, kind = f, "address handed to "+calleeLabel(&x.Call)
 					}
 				}
@@ -711,6 +726,23 @@ func (c *Ctx) RuleFlagsReject() *Result {
 					if ok2, _, _ := c.loudFrom(target, env, nil); ok2 {
 						found = b
 					}
+				}
+				// and every successful return of f is only reached when the flags are empty
+				if found != nil && fnHasErrResult(f) {
+					noFlags := func(cond ssa.Value, val bool) bool { return cond == ssa.Value(b) && !val }
+					allInstrs(f, func(in2 ssa.Instruction) {
+						r, ok := in2.(*ssa.Return)
+						if !ok {
+							return
+						}
+						env := newEnvAt(r.Block())
+						if op := retErrOperand(r); op != nil && env.nilnessOf(op) == nonNil {
+							return
+						}
+						if !c.guardedByEdges(r, noFlags) {
+							found = nil
+						}
+					})
 				}
 			})
 			return found, found != nil
@@ -905,7 +937,7 @@ func (c *Ctx) selfCleaning(gl *ssa.Global, cbs []*ssa.Function, reach map[*ssa.F
 				return false
 			}
 			ex, ok := x.(*ssa.Extract)
-			if !ok {
+			if !ok || ex.Index != 0 || isErrorType(ex.Type()) {
 				return false
 			}
 			call, ok := ex.Tuple.(*ssa.Call)
@@ -950,4 +982,38 @@ func dependsOnGlobal(v ssa.Value, gl *ssa.Global, depth int) bool {
 		}
 	}
 	return false
+}
+
+// writesThroughParam: does fn store into memory reachable from pointer parameter p?
+func writesThroughParam(fn *ssa.Function, p *ssa.Parameter) bool {
+	found := false
+	allInstrs(fn, func(in ssa.Instruction) {
+		var addr ssa.Value
+		switch x := in.(type) {
+		case *ssa.Store:
+			addr = x.Addr
+		case *ssa.MapUpdate:
+			if ld, ok := x.Map.(*ssa.UnOp); ok {
+				addr = ld.X
+			}
+		default:
+			return
+		}
+		for i := 0; i < 8 && addr != nil; i++ {
+			switch a := addr.(type) {
+			case *ssa.Parameter:
+				if a == p {
+					found = true
+				}
+				addr = nil
+			case *ssa.FieldAddr:
+				addr = a.X
+			case *ssa.IndexAddr:
+				addr = a.X
+			default:
+				addr = nil
+			}
+		}
+	})
+	return found
 }
